@@ -50,8 +50,8 @@ def correspondence(ctx, thorough, search, prop="C01"):
         elif r["verdict"] == "crash":
             ov.append({"class": "executor-crashed", "what": "node could not run case %s/%s: %s" % (r["id"], r["which"], r.get("err", "")[:300]), "input": None})
     cov = {"evaluations": sum(r.get("calls", 0) for r in res), "distinct_nontrivial": len(res), "traces_validated_against_impl": len(res),
-           "rule": "hand-written stateful modules (globals, memory, data, start, call_indirect through a table, a real loop, br_table, else-less if, dead code after return, div traps, host calls) + generated valid modules of the executable profile; every exported function whose signature JavaScript can express is called with boundary argument vectors, up to 40 calls per module in random order on ONE instance per binary (state carries over); compared per call: result or trap class and the host-call trace; at the end: memory hash and size, exported globals, table size and null pattern",
+           "rule": "hand-written stateful modules (globals, memory, data, start, call_indirect through a table, a real loop, br_table, else-less if, dead code after return, div traps, host calls) + generated valid modules of the executable profile; every exported function whose signature JavaScript can express is called with boundary argument vectors, up to 40 calls per module in random order on ONE instance per binary (state carries over); compared per call: result or trap class and the host-call trace (a run is cut at the first call that exhausts the stack in either binary: the depth reached is implementation-defined); at the end: memory hash and size, exported globals, table size and null pattern",
            "input_distribution": {"modules": len(idx["ids"]), "executions": len(res), "verdicts": tally, "calls": sum(r.get("calls", 0) for r in res), "trapping_calls": sum(r.get("traps", 0) for r in res),
-                                  "host_calls": sum(r.get("host_calls", 0) for r in res), "signatures_not_expressible_in_js": idx.get("signatures_not_expressible_in_js")},
+                                  "host_calls": sum(r.get("host_calls", 0) for r in res), "runs_cut_at_stack_exhaustion": sum(1 for r in res if r.get("cut_at_exhaustion", -1) >= 0), "signatures_not_expressible_in_js": idx.get("signatures_not_expressible_in_js")},
            "exhaustive": False}
     return {"disagreements": [], "oracle_violations": ov, "coverage": cov}
